@@ -77,7 +77,7 @@ Proof.
   intros Hplain Hpol Hplan Hval x.
   destruct rn as [a k h q d c p run]. destruct g as [tr cbn0 plan val up bad]. cbn in Hplan, Hval. subst plan.
   unfold exec_row, x. cbn [tgt_state r_tgt r_src r_exitpt r_guard r_act r_id tgt_ekind].
-  unfold run_guard, guard_value, exec_exit, exec_entry, run_action. cbn [r_guard r_id r_act].
+  unfold run_guard, guard_value, exec_exit, exec_entry_gen, run_action. cbn [r_guard r_id r_act].
   rewrite !child_none.
   unfold plain_state in Hplain.
   destruct (c_pol cf) as [|[|[|[|pp]]]]; try lia;
